@@ -1,7 +1,9 @@
 import Driver.Common
 import ScionTime.Model.Unixutil
 import ScionTime.Model.CsptpConv
-open Driver ScionTime.Unixutil ScionTime.CsptpConv
+import ScionTime.Model.FreqDrift
+import Driver.F64Ops
+open Driver ScionTime.Unixutil ScionTime.CsptpConv ScionTime.FreqDrift
 
 /-- ops:
   ux.timeval <nsec>                          -> ok <sec> <usec>
@@ -10,6 +12,10 @@ open Driver ScionTime.Unixutil ScionTime.CsptpConv
   cs.ival <int64>                            -> ok <duration>
   cs.offset|cs.delay t0s t0n t1s t1n t2s t2n t3s t3n c1 c3 -> ok <duration>
   cs.c2s|cs.s2c ts tn us un corr utc         -> ok <duration>
+  ux.ppm2freq <int64>                        -> ok <double as 16 hex digits>
+  ux.freq2ppm <double>                       -> ok <int64>
+  tm.duration <double>                       -> ok <int64>
+  clk.drift <drift ns> <duration ns>         -> ok <int64>   (NewSystemClock(_, drift).Drift(duration))
 -/
 def i64? (s : String) : Option Int64 :=
   match parseInt? s with
@@ -46,6 +52,22 @@ def step (_ : Unit) (toks : List String) : Unit × String :=
         let t := timeFromTimestamp { seconds := bs, ns := n }
         ((), s!"ok {t / 1000000000} {t % 1000000000}")
       else ((), "bad-op")
+    | _, _ => ((), "bad-op")
+  | ["ux.ppm2freq", x] =>
+    match i64? x with
+    | some x => ((), s!"ok {fmtF (freqFromScaledPPM x.toInt)}")
+    | none => ((), "bad-op")
+  | ["ux.freq2ppm", f] =>
+    match parseF? f with
+    | some f => ((), s!"ok {scaledPPMFromFreq f}")
+    | none => ((), "bad-op")
+  | ["tm.duration", f] =>
+    match parseF? f with
+    | some f => ((), s!"ok {duration f}")
+    | none => ((), "bad-op")
+  | ["clk.drift", dr, d] =>
+    match i64? dr, i64? d with
+    | some dr, some d => ((), s!"ok {drift (clockDrift dr.toInt) d.toInt}")
     | _, _ => ((), "bad-op")
   | ["cs.ival", i] =>
     match i64? i with
